@@ -7,6 +7,8 @@ pre-emption points, temp-name stream, directory-listing order, clock) and -- acr
 shards -- under two different PYTHONHASHSEEDs.  One canonical digest per scenario.
 """
 import itertools
+import os
+import shutil
 import json
 import math
 import os
@@ -72,6 +74,10 @@ def gen(rng, tier, idx):
             if rng.random() < 0.6:
                 kk['n_processors'] = rng.randint(1, 6)
     scn['kernels'] = ks
+    # history twin: a decoy world is first pushed through the stage at the SAME input paths, then the real inputs are
+    # written there; kernel 0 reads an identical copy of the real inputs under paths the process has never seen.
+    # Results may depend on the content of the input files only -- not on what was read from those paths before.
+    scn['history_twin'] = rng.random() < 0.25
     return scn
 
 
@@ -90,9 +96,35 @@ def run(scn, sb):
         common.begin(sb, kk['kcfg'])
         try:
             if first:
+                if scn.get('history_twin'):
+                    decoy = dict(scn)
+                    if 'wp' in scn:
+                        decoy['wp'] = dict(scn['wp'], seed=scn['wp']['seed'] + 1)
+                    else:
+                        decoy['mat'] = dict(scn['mat'], seed=scn['mat']['seed'] + 1)
+                    try:
+                        dctx = prepare(decoy, sb)
+                        execute(decoy, sb, dctx, 90, {'sched': {'policy': 'fifo', 'seed': 0}})
+                    except Exception:
+                        pass
+                    shutil.rmtree(sb.p('out', 'r90'), ignore_errors=True)
+                    shutil.rmtree(sb.p('in'), ignore_errors=True)
+                    os.makedirs(sb.p('in'))
+                    for leftover in os.listdir(sb.p('scratch')):
+                        shutil.rmtree(os.path.join(sb.p('scratch'), leftover), ignore_errors=True)
+                    res['probes']['history_twin'] = 1
                 ctx = prepare(scn, sb)
+                if scn.get('history_twin'):
+                    real_in = sb.dirs['in']
+                    sb.dirs['in'] = os.path.join(sb.base, 'in_twin')
+                    os.makedirs(sb.dirs['in'], exist_ok=True)
+                    try:
+                        ctx_twin = prepare(scn, sb)
+                    finally:
+                        sb.dirs['in'] = real_in
                 first = False
-            out, dig, scheds = execute(scn, sb, ctx, k_i, kk)
+            use_ctx = ctx_twin if (scn.get('history_twin') and k_i == 0) else ctx
+            out, dig, scheds = execute(scn, sb, use_ctx, k_i, kk)
             common.sched_stats(res, scheds)
             for s in scheds:
                 for c in kernel.write_set_conflicts(s, sb.trace):
@@ -135,6 +167,13 @@ def run(scn, sb):
                                        % (scn['stage'], o['k'], o['digest'], d0,
                                           o['completion'], outcomes[0]['completion'])})
                 break
+    if scn.get('history_twin'):
+        for v in viol:
+            if v['cls'] in ('schedule-dependent-failure', 'schedule-dependent-result'):
+                v['detail'] += (' [history twin: kernel 0 read an identical copy of the inputs under paths new to the '
+                                'process, the other kernels read the usual paths after a decoy world had gone through '
+                                'the stage there -- a difference between kernel 0 and the rest means the result depends '
+                                'on what was read from those paths before, not on the schedule]')
     inter = set(o['inter'] for o in outcomes if o['multi'])
     res['nontrivial'] = len(inter) >= 2 and 'raised' not in stats
     res['key'] = model.canonical_json([scn['stage'], scn.get('wp') or scn.get('mat'), scn['cfg']])
